@@ -521,3 +521,40 @@ def run_guarded(module, func, payload, timeout):
     if "@@RESULT@@" not in out:
         return {"error": (err or out)[-1500:]}
     return json.loads(out.split("@@RESULT@@")[-1])
+
+
+def start_guarded(module, func, payload):
+    code = ("import sys, json\n"
+            "from harness import common\n"
+            "common.init_jax()\n"
+            f"from harness import {module} as m\n"
+            f"res = m.{func}(json.loads(sys.stdin.read()))\n"
+            "sys.stdout.write('\\n@@RESULT@@' + json.dumps(res, default=str))\n")
+    p = subprocess.Popen([sys.executable, "-c", code], stdin=subprocess.PIPE, stdout=subprocess.PIPE, stderr=subprocess.PIPE,
+                         text=True, env=dict(os.environ), cwd=os.environ.get("VERIF_REPO", "/repo"))
+    p.stdin.write(json.dumps(payload))
+    p.stdin.close()
+    return p
+
+
+def finish_guarded(p, timeout):
+    """Wait at most `timeout` seconds for a process started with start_guarded; kill it BY PID when it does not return."""
+    import threading
+
+    buf = {}
+
+    def rd():
+        buf["out"] = p.stdout.read()
+        buf["err"] = p.stderr.read()
+    t = threading.Thread(target=rd, daemon=True)
+    t.start()
+    t.join(timeout)
+    if t.is_alive():
+        p.kill()
+        t.join(10)
+        return {"timeout": True}
+    p.wait()
+    out = buf.get("out", "")
+    if "@@RESULT@@" not in out:
+        return {"error": (buf.get("err") or out)[-1500:]}
+    return json.loads(out.split("@@RESULT@@")[-1])
